@@ -45,8 +45,8 @@ def validRange (h : Str) : Bool :=
 /-- bytes `a..b` (inclusive) of the file -/
 def slice (content : List Nat) (a b : Nat) : List Nat := (content.drop a).take (b + 1 - a)
 
-def crText (a b size : Nat) : Str := ofString "bytes " ++ decN a ++ [45] ++ decN b ++ [47] ++ decN size
-def crUnsat (size : Nat) : Str := ofString "bytes */" ++ decN size
+def crText (a b size : Nat) : Str := sBytesSp ++ decN a ++ [45] ++ decN b ++ [47] ++ decN size
+def crUnsat (size : Nat) : Str := sBytesStar ++ decN size
 
 /-- the response shapes allowed by the property (for a GET, or a HEAD when `head`) -/
 def Shape (content : List Nat) (head : Bool) (r : Resp) : Prop :=
